@@ -520,6 +520,11 @@ impl StrokeCtx {
                 let z = mt * (mt * mt * p[0] + 3.0 * t * (mt * p[1] + t * p[2])) + t * t * t * p[3];
                 let p = ref_pt + z * ref_vec;
                 let tan = p - self.last_pt;
+                if tan == Vec2::ZERO {
+                    // Two cusps at the same point (a double root up to rounding): there is
+                    // no segment between them, and a zero tangent has no normal.
+                    continue;
+                }
                 self.do_join(&style, tan);
                 self.do_line(&style, tan, p);
                 self.last_tan = tan;
